@@ -1,26 +1,29 @@
 ---------------------------- MODULE MultipartMC ----------------------------
-(* C14 - the data-mode core of htp_mpartp_parse (STATE_DATA / STATE_BOUNDARY, cr_aside,
-   boundary_pieces) with the delimiter text "--boundary" as ONE atomic symbol "B".
-   A body is  content \o EOL \o <<"B">>  with content over {"C","L","x"} (CR, LF, other) and
-   EOL = <<"C","L">> or <<"L">>.  The reference result is content, for every chunking.        *)
+(* C14 - the data-mode core of htp_mpartp_parse (STATE_DATA / STATE_BOUNDARY, cr_aside, boundary_match_pos,
+   boundary_pieces).  The delimiter text after the line end is the two-symbol sequence Bnd = <<"D","B">> (think "--" and the
+   boundary token), matched symbol by symbol as the code does, so that a candidate can be cut anywhere, can fail after a partial
+   match ("L D x", "L D L D B") and can be stored over several chunks.
+   A body is  content \o EOL \o Bnd  with content over {"C","L","D","x"} (CR, LF, dash, other) and EOL = <<"C","L">> or <<"L">>.
+   The reference result is content, for every chunking.                                                                      *)
 EXTENDS Integers, Sequences, FiniteSets, TLC
 
 CONSTANTS MaxLen, FixD10
 
-Sym == {"C", "L", "x"}
+Sym == {"C", "L", "D", "x"}
+Bnd == <<"D", "B">>
 Contents == UNION {[1..n -> Sym] : n \in 0..MaxLen}
-\* content must not itself contain EOL+B (it cannot: no "B" in Sym)
-Bodies == {c \o e \o <<"B">> : c \in Contents, e \in {<<"C", "L">>, <<"L">>}}
+\* content cannot itself contain EOL+Bnd (no "B" in Sym)
+Bodies == {c \o e \o Bnd : c \in Contents, e \in {<<"C", "L">>, <<"L">>}}
 
-VARIABLES body, fed, state, cr_aside, pieces, cand, out, done
-vars == <<body, fed, state, cr_aside, pieces, cand, out, done>>
+VARIABLES body, fed, state, cr_aside, pieces, cand, mpos, out, done
+vars == <<body, fed, state, cr_aside, pieces, cand, mpos, out, done>>
 
-Init == /\ body \in Bodies /\ fed = 0 /\ state = "DATA" /\ cr_aside = FALSE /\ pieces = <<>> /\ cand = 0
+Init == /\ body \in Bodies /\ fed = 0 /\ state = "DATA" /\ cr_aside = FALSE /\ pieces = <<>> /\ cand = 0 /\ mpos = 1
         /\ out = <<>> /\ done = FALSE
 
-\* reference: everything before the final EOL+B; the EOL is CRLF when a CR precedes the LF
-Ref(b) == LET n == Len(b) IN
-          IF n >= 3 /\ b[n-2] = "C" THEN SubSeq(b, 1, n - 3) ELSE SubSeq(b, 1, n - 2)
+\* reference: everything before the final EOL+Bnd; the EOL is CRLF when a CR precedes the LF
+Ref(b) == LET n == Len(b) - Len(Bnd) IN
+          IF n >= 2 /\ b[n-1] = "C" THEN SubSeq(b, 1, n - 2) ELSE SubSeq(b, 1, n - 1)
 
 StripEol(s) == LET n == Len(s) IN
                IF n >= 1 /\ s[n] = "L" THEN (IF n >= 2 /\ s[n-1] = "C" THEN SubSeq(s, 1, n - 2) ELSE SubSeq(s, 1, n - 1))
@@ -29,7 +32,7 @@ RECURSIVE Flat(_)
 Flat(ps) == IF ps = <<>> THEN <<>> ELSE Head(ps) \o Flat(Tail(ps))
 
 \* the machine state while scanning one chunk d
-\* m = [pos, startpos, ret, state, cr, pieces, cand, out, done]
+\* m = [pos, startpos, ret, state, cr, pieces, cand, mpos, out, done]
 RECURSIVE Scan(_, _)
 Scan(d, m) ==
   LET len == Len(d) IN
@@ -43,21 +46,25 @@ Scan(d, m) ==
           LET rel == IF FixD10 /\ m.cr THEN <<"C">> ELSE <<>> IN     \* repaired: an earlier set-aside CR is data now
           IF m.pos + 1 = len THEN Scan(d, [m EXCEPT !.pos = @ + 1, !.cr = TRUE, !.out = @ \o rel])
           ELSE IF d[m.pos + 2] = "L"
-               THEN Scan(d, [m EXCEPT !.pos = @ + 2, !.ret = m.pos + 2, !.cand = m.pos + 2 - m.startpos, !.state = "BOUNDARY",
+               THEN Scan(d, [m EXCEPT !.pos = @ + 2, !.ret = m.pos + 2, !.cand = m.pos + 2 - m.startpos, !.state = "BOUNDARY", !.mpos = 1,
                                       !.out = @ \o rel, !.cr = IF FixD10 THEN FALSE ELSE @])
                ELSE Scan(d, [m EXCEPT !.pos = @ + 1, !.cr = FALSE, !.out = @ \o rel])
        ELSE IF c = "L" THEN
-          Scan(d, [m EXCEPT !.pos = @ + 1, !.ret = m.pos + 1, !.cand = m.pos + 1 - m.startpos, !.state = "BOUNDARY"])
+          Scan(d, [m EXCEPT !.pos = @ + 1, !.ret = m.pos + 1, !.cand = m.pos + 1 - m.startpos, !.state = "BOUNDARY", !.mpos = 1])
        ELSE \* ordinary byte: release a set-aside CR first
           Scan(d, [m EXCEPT !.pos = @ + 1, !.out = IF m.cr THEN @ \o <<"C">> ELSE @, !.cr = FALSE])
   ELSE \* BOUNDARY
      IF m.pos >= len THEN
         \* no more data: keep the unprocessed part of this chunk for later
         [m EXCEPT !.pieces = Append(@, SubSeq(d, m.startpos + 1, len))]
-     ELSE IF d[m.pos + 1] # "B" THEN
-        \* mismatch: process_aside(no match) in data mode, go back to where data scanning left off
+     ELSE IF d[m.pos + 1] # Bnd[m.mpos] THEN
+        \* mismatch: process_aside(no match) in data mode, go back to where data scanning left off in THIS chunk
+        \* (data_return_pos is a local of the call: 0 when the candidate started in an earlier chunk)
         Scan(d, [m EXCEPT !.out = @ \o (IF m.cr THEN <<"C">> ELSE <<>>) \o Flat(m.pieces),
                           !.cr = FALSE, !.pieces = <<>>, !.pos = m.ret, !.state = "DATA"])
+     ELSE IF m.mpos < Len(Bnd) THEN
+        \* one more symbol of the delimiter matched
+        Scan(d, [m EXCEPT !.pos = @ + 1, !.mpos = @ + 1])
      ELSE
         \* match: process_aside(match): set-aside CR belongs to the boundary; first piece up to cand minus EOL
         LET fromPieces == IF m.pieces = <<>> THEN <<>> ELSE StripEol(SubSeq(m.pieces[1], 1, m.cand))
@@ -68,11 +75,11 @@ Feed(n) ==
   /\ ~done /\ n >= 1 /\ fed + n <= Len(body)
   /\ LET d == SubSeq(body, fed + 1, fed + n)
          m == Scan(d, [pos |-> 0, startpos |-> 0, ret |-> 0, state |-> state, cr |-> cr_aside,
-                       pieces |-> pieces, cand |-> cand, out |-> out, done |-> FALSE])
-     IN /\ state' = m.state /\ cr_aside' = m.cr /\ pieces' = m.pieces /\ cand' = m.cand /\ out' = m.out /\ done' = m.done
+                       pieces |-> pieces, cand |-> cand, mpos |-> mpos, out |-> out, done |-> FALSE])
+     IN /\ state' = m.state /\ cr_aside' = m.cr /\ pieces' = m.pieces /\ cand' = m.cand /\ mpos' = m.mpos /\ out' = m.out /\ done' = m.done
   /\ fed' = fed + n /\ UNCHANGED body
 
-Next == \E n \in 1..(MaxLen + 3) : Feed(n)
+Next == \E n \in 1..(MaxLen + 4) : Feed(n)
 Spec == Init /\ [][Next]_vars
 
 ChunkInvariant == done => out = Ref(body)
